@@ -513,3 +513,6 @@ Lemma no_restore_closed ops :
 Proof.
   intros H. apply Forall_forall. intros o Hin snap E. rewrite forallb_forall in H. specialize (H _ Hin). subst o. discriminate.
 Qed.
+
+Lemma restore_inj a b : ORestore a = ORestore b -> a = b.
+Proof. intros H. inversion H. reflexivity. Qed.
